@@ -56,6 +56,25 @@ def run(case):
                             coords={'lat': ('lat', numpy.arange(ny) * 1.0, {'units': 'degrees_north'}), 'lon': ('lon', numpy.arange(nx) * 1.0, {'units': 'degrees_east'})})
         ems = ds.ems
         return {'wind': [list(map(int, ems.wind_index(n))) for n in range(ny * nx)], 'ravel': [int(ems.ravel_index((j, i))) for j in range(ny) for i in range(nx)]}
+    if f == 'np_view_store':
+        a = numpy.array([[10, 11], [20, 21], [30, 31]])
+        how = case['how']
+        if how == 'transpose-row-mask':
+            x, y = numpy.transpose(a)
+            x[numpy.array([True, False, True])] = -1
+        elif how == 'slice-element':
+            v = a[1:3]
+            v[0, 1] = -5
+        elif how == 'row-slice':
+            v = a[2]
+            v[0] = 7
+        else:
+            v = a[:, 1]
+            v[1] = -9
+        return {'a': a.tolist()}
+    if f == 'np_diff':
+        kw = {k: case[k] for k in ('prepend', 'append') if case[k] is not None}
+        return {'d': numpy.diff(numpy.array(case['vals']), **kw).tolist()}
     if f == 'np_reshape':
         vals = numpy.arange(int(numpy.prod(case['shape'])))
         if case['layout'] == 'F' and len(case['shape']) > 1:
